@@ -261,6 +261,8 @@ class Lib:
         from .text import TokList, toklist_to_array
         if isinstance(data, TokList):
             return toklist_to_array(data, dt or "float")
+        if hasattr(data, "pyvc_array"):       # library-model values convertible to arrays (pyvc/libext)
+            return data.pyvc_array(interp, dt)
         if isinstance(data, A.Arr):
             return A.copy(data) if dt is None else A.astype(data, dt)
         if isinstance(data, SeriesVal):
@@ -607,6 +609,8 @@ class Lib:
 
     def value_attr(self, interp, obj, name):
         obj = norm(obj)
+        if hasattr(obj, "pyvc_getattr"):      # values of library models defined in pyvc/libext (protocol: attribute access)
+            return obj.pyvc_getattr(interp, name)
         if isinstance(obj, A.Arr):
             return self.arr_attr(interp, obj, name)
         if isinstance(obj, A.Masked):
